@@ -166,3 +166,180 @@ Proof.
       exists (S n). simpl. split; [lia|]. split; [exact I2|]. split; [exact G2|lia].
     + exists 1%nat. simpl. split; [lia|]. split; [exact I1|]. split; [exact Hg|exact L1].
 Qed.
+
+(* ================================================================ the expired half *)
+
+(* invariants carried through a pass *)
+Lemma fold_mono2 {A} (P : shard -> Prop) (f : shard -> A -> shard) l :
+  (forall s a, inv s -> P s -> inv (f s a) /\ P (f s a) /\ (msize (f s a) <= msize s)%nat) ->
+  forall s, inv s -> P s -> inv (fold_left f l s) /\ P (fold_left f l s) /\ (msize (fold_left f l s) <= msize s)%nat.
+Proof.
+  intros H. induction l as [|a r IH]; intros s I Ps; simpl; auto.
+  destruct (H s a I Ps) as (I1 & P1 & L1). destruct (IH _ I1 P1) as (I2 & P2 & L2). repeat split; auto. lia.
+Qed.
+
+Section PassInv.
+Variable P : shard -> Prop.
+Hypothesis Pdel : forall s c ids, inv s -> P s -> P (delete_objs s c ids).
+Hypothesis Pdrop : forall s c, inv s -> P s -> P (drop_cnr s c).
+Hypothesis Pdone : forall s, P s -> P (set_done s (sh_cur s)).
+
+Lemma P_expired_one s a : inv s -> P s -> inv (expired_one s a) /\ P (expired_one s a) /\ (msize (expired_one s a) <= msize s)%nat.
+Proof.
+  intros I Ps. destruct (expired_one_mono s a I) as [I1 L1]. repeat split; auto.
+  destruct a as [c' y]. unfold expired_one.
+  destruct (view_locked (sh_meta s) c' y); auto.
+  destruct ((view_exists (sh_meta s) true c' y =? v_ok) || (view_exists (sh_meta s) true c' y =? v_ecparent)); auto.
+Qed.
+
+Lemma P_delete_bin s (bin : cid * list oid) : inv s -> P s ->
+  inv (delete_objs s (fst bin) (snd bin)) /\ P (delete_objs s (fst bin) (snd bin)) /\
+  (msize (delete_objs s (fst bin) (snd bin)) <= msize s)%nat.
+Proof. intros I Ps. repeat split; auto using delete_objs_inv. now apply delete_objs_size. Qed.
+
+Lemma P_drop_or_delete s bin : inv s -> P s ->
+  inv (drop_or_delete s bin) /\ P (drop_or_delete s bin) /\ (msize (drop_or_delete s bin) <= msize s)%nat.
+Proof.
+  intros I Ps. destruct (drop_or_delete_mono s bin I) as [I1 L1]. repeat split; auto.
+  destruct bin as [c' ids]. unfold drop_or_delete. cbn [fst snd]. destruct ids; [apply (Pdrop s c' I Ps)|now apply Pdel].
+Qed.
+
+Lemma P_collect limit s : inv s -> P s -> P (collect_expired limit s).
+Proof.
+  intros I Ps. unfold collect_expired.
+  destruct (sh_done s =? sh_cur s); auto. destruct (sh_cur s <? sh_done s); [now apply Pdone|].
+  set (batch := firstn limit (view_expired (sh_meta s) (sh_cur s))).
+  set (s1 := match batch with [] => set_done s (sh_cur s) | _ => s end).
+  assert (I1 : inv s1 /\ P s1) by (unfold s1; destruct batch; split; auto). destruct I1 as [I1 P1].
+  destruct (fold_mono2 P (fun s' bin => delete_objs s' (fst bin) (snd bin)) (tomb_bins batch None) P_delete_bin s1 I1 P1) as (I2 & P2 & _).
+  now destruct (fold_mono2 P expired_one
+              (map (fun t : cid * oid * otype => fst t) (filter (fun t : cid * oid * otype => negb (is_tomb (snd t))) batch))
+              P_expired_one _ I2 P2) as (_ & P3 & _).
+Qed.
+
+Lemma P_pass limit s : inv s -> P s -> P (gc_pass limit s).
+Proof.
+  intros I Ps. destruct (collect_expired_mono limit s I) as [I1 _]. pose proof (P_collect limit s I Ps) as P1.
+  unfold gc_pass. now destruct (fold_mono2 P drop_or_delete (view_garbage (sh_meta (collect_expired limit s)) limit)
+                                 P_drop_or_delete _ I1 P1) as (_ & P2 & _).
+Qed.
+End PassInv.
+
+(* a stored tombstoned object carries a garbage key (what an accepted tombstone leaves behind) *)
+Definition ts_inv (s : shard) : Prop :=
+  forall c b x, bucket (sh_meta s) c = Some b -> tombstoned b x = true -> sm_get x (objs b) <> None -> sm_get x (garb b) <> None.
+
+Lemma tombstoned_sub b b' x : (forall kv, In kv (objs b') -> In kv (objs b)) -> tombstoned b' x = true -> tombstoned b x = true.
+Proof.
+  intros H T. unfold tombstoned in *. apply existsb_exists in T as [kv [Hin Hk]]. apply existsb_exists. exists kv. split; auto.
+Qed.
+
+Lemma bucket_after_delete s c ids c' b1 :
+  inv s -> bucket (sh_meta (delete_objs s c ids)) c' = Some b1 ->
+  exists b, bucket (sh_meta s) c' = Some b /\
+            (forall kv, In kv (objs b1) -> In kv (objs b)) /\
+            (forall x, sm_get x (objs b1) <> None -> sm_get x (objs b) <> None /\ sm_get x (garb b1) = sm_get x (garb b)) /\
+            cgc b1 = cgc b /\ (garb b = [] -> garb b1 = []).
+Proof.
+  intros I B1. destruct ids as [|i r].
+  { exists b1. repeat split; auto. }
+  destruct (bucket (sh_meta s) c) as [b|] eqn:B.
+  2:{ rewrite delete_objs_none in B1 by auto. exists b1. repeat split; auto. }
+  destruct (delete_objs_spec s c (i :: r) b I B) as (b' & E & O & Gb & Cg & W' & G'); [discriminate|].
+  destruct (inv_bucket s c b I B) as [[Wo Wg] _].
+  rewrite E in B1. cbn [sh_meta] in B1. destruct (N.eq_dec c' c) as [->|Ne].
+  - rewrite bucket_set_eq in B1. inversion B1; subst b1. exists b. split; auto.
+    split; [intros kv Hin; rewrite O in Hin; now apply dels_in in Hin|].
+    split; [|split; [exact Cg|intros Eg; rewrite Gb, Eg; clear; induction (i :: r); simpl; auto]].
+    intros x Hx. rewrite O in Hx.
+    assert (Ni : ~ In x (i :: r)) by (intros Hin; apply Hx; now apply dels_get_in).
+    rewrite dels_get_notin in Hx by auto. split; auto. rewrite Gb. now apply dels_get_notin.
+  - rewrite bucket_set_ne in B1 by auto. exists b1. repeat split; auto.
+Qed.
+
+Lemma ts_inv_delete s c ids : inv s -> ts_inv s -> ts_inv (delete_objs s c ids).
+Proof.
+  intros I T c' b1 x B1 Tx Sx. destruct (bucket_after_delete s c ids c' b1 I B1) as (b & B & Hsub & Hget & _).
+  destruct (Hget x Sx) as [Sb Eg]. rewrite Eg. apply (T c' b x B); auto. now apply (tombstoned_sub b b1 x Hsub).
+Qed.
+
+Lemma bucket_after_drop s c c' b : inv s -> bucket (sh_meta (drop_cnr s c)) c' = Some b -> bucket (sh_meta s) c' = Some b.
+Proof.
+  intros [W _] B. unfold drop_cnr, set_meta in B. cbn [sh_meta] in B. destruct (N.eq_dec c' c) as [->|Ne].
+  - rewrite bucket_drop_eq in B by auto. discriminate.
+  - now rewrite bucket_drop_ne in B by auto.
+Qed.
+
+Lemma ts_inv_pass limit s : inv s -> ts_inv s -> ts_inv (gc_pass limit s).
+Proof.
+  apply (P_pass ts_inv).
+  - exact ts_inv_delete.
+  - intros s0 c I T c' b x B. apply (T c' b x). now apply (bucket_after_drop s0 c).
+  - intros s0 T. exact T.
+Qed.
+
+(* clocks: a pass changes neither the epoch source nor the current epoch; the processed epoch stays or becomes the current one *)
+Definition clocks (e cu d : N) (s : shard) : Prop :=
+  epoch (sh_meta s) = e /\ sh_cur s = cu /\ (sh_done s = d \/ sh_done s = cu).
+
+Lemma clocks_pass limit s e cu d : inv s -> clocks e cu d s -> clocks e cu d (gc_pass limit s).
+Proof.
+  apply (P_pass (clocks e cu d)).
+  - intros s0 c ids _ (H1 & H2 & H3). destruct (delete_objs_clocks s0 c ids) as (E1 & E2 & E3).
+    unfold clocks. rewrite E1, E2, E3. auto.
+  - intros s0 c _ H. exact H.
+  - intros s0 (H1 & H2 & H3). unfold clocks. simpl. auto.
+Qed.
+
+(* garbage-free states stay garbage-free *)
+Lemma garbage_free_bucket m c b : wf_state m -> garbage_free m = true -> bucket m c = Some b -> cgc b = false /\ garb b = [].
+Proof.
+  intros W G B. apply (bucket_in m c b W) in B. unfold garbage_free in G. rewrite forallb_forall in G.
+  specialize (G (c, b) B). unfold quiet_bucket in G. cbn [snd] in G. apply andb_true_iff in G as [G1 G2].
+  split; [now destruct (cgc b)|]. now destruct (garb b).
+Qed.
+
+Lemma garbage_free_intro m : wf_state m -> (forall c b, bucket m c = Some b -> cgc b = false /\ garb b = []) -> garbage_free m = true.
+Proof.
+  intros W H. unfold garbage_free. apply forallb_forall. intros [c b] Hin. apply (bucket_in m c b W) in Hin.
+  destruct (H c b Hin) as [H1 H2]. unfold quiet_bucket. cbn [snd]. now rewrite H1, H2.
+Qed.
+
+Definition gfree (s : shard) : Prop := garbage_free (sh_meta s) = true.
+
+Lemma gfree_delete s c ids : inv s -> gfree s -> gfree (delete_objs s c ids).
+Proof.
+  intros I G. pose proof (delete_objs_inv s c ids I) as [W' _]. apply garbage_free_intro; auto.
+  intros c' b1 B1. destruct (bucket_after_delete s c ids c' b1 I B1) as (b & B & _ & _ & Cg & Hg).
+  destruct I as [W _]. destruct (garbage_free_bucket _ _ _ W G B) as [H1 H2]. split; [congruence|auto].
+Qed.
+
+Lemma gfree_pass limit s : inv s -> gfree s -> gfree (gc_pass limit s).
+Proof.
+  apply (P_pass gfree).
+  - exact gfree_delete.
+  - intros s0 c I G. pose proof (drop_cnr_inv s0 c I) as [W' _]. apply garbage_free_intro; auto.
+    intros c' b B. apply (bucket_after_drop s0 c c' b I) in B. destruct I as [W _]. now apply (garbage_free_bucket _ _ _ W G B).
+  - intros s0 G. exact G.
+Qed.
+
+Lemma garbage_loop_quiet bs limit : forall num,
+  forallb (fun cb : cid * cstate => quiet_bucket (snd cb)) bs = true -> garbage_loop bs limit num = [].
+Proof.
+  induction bs as [|[c0 b0] r IH]; intros num H; simpl in *; auto.
+  apply andb_true_iff in H as [H1 H2]. unfold quiet_bucket in H1. apply andb_true_iff in H1 as [Hc Hg].
+  destruct (cgc b0); [discriminate|]. destruct (garb b0); [|discriminate]. simpl. rewrite firstn_nil. auto.
+Qed.
+
+Lemma view_garbage_gfree m limit : garbage_free m = true -> view_garbage m limit = [].
+Proof. intros G. unfold view_garbage. destruct limit; auto. now apply garbage_loop_quiet. Qed.
+
+(* no stored object is tombstoned: what ts_inv means once the garbage lists are empty *)
+Definition no_ts (s : shard) : Prop :=
+  forall c b x, bucket (sh_meta s) c = Some b -> sm_get x (objs b) <> None -> tombstoned b x = false.
+
+Lemma no_ts_of s : inv s -> ts_inv s -> gfree s -> no_ts s.
+Proof.
+  intros [W _] T G c b x B Sx. destruct (garbage_free_bucket _ _ _ W G B) as [_ Hg].
+  destruct (tombstoned b x) eqn:Tx; auto. exfalso. apply (T c b x B Tx Sx). now rewrite Hg.
+Qed.
